@@ -307,7 +307,56 @@ def _build_objs(w):
                 info["incompat"] = d["cls"]
             except Exception:  # noqa: BLE001 - the mod does not fit this object: no defect applied
                 info["incompat"] = None
+    var = (w.get("env") or {}).get("variant")
+    if var and objs:
+        objs = [_object_variant(o, var) for o in objs]
     return objs, info
+
+
+class _IODataSubclass:
+    """Created lazily: a subclass of IOData whose constructor takes other arguments (a user's convenience class)."""
+
+    cls = None
+
+
+def _object_variant(o, var):
+    import collections
+    import threading
+
+    if getattr(o, "extra", None) is None and var in ("uncopyable_extra", "defaultdict_extra"):
+        return o  # (the defect of this workload removed the attribute)
+    if var == "uncopyable_extra":
+        o.extra["verif_lock"] = threading.Lock()  # application data that copy.deepcopy refuses
+        o.extra["verif_gen"] = (i for i in range(3))
+    elif var == "defaultdict_extra":
+        o.extra = collections.defaultdict(dict, o.extra)  # a dict subclass with __missing__
+    elif var == "counts_before_mo" and o.mo is not None and o.mo.kind != "generalized":
+        mo = o.mo
+        try:
+            o.mo = None
+            o.nelec = mo.nelec
+            o.spinpol = mo.spinpol
+        except Exception:  # noqa: BLE001
+            pass
+        o.mo = mo  # electron count and spin assigned first, orbitals attached later: a legal history
+    elif var == "subclass":
+        from iodata import IOData
+
+        if _IODataSubclass.cls is None:
+            import attrs
+
+            class MyData(IOData):
+                def __init__(self, source=None, **kw):
+                    super().__init__(**kw)
+                    object.__setattr__(self, "source", source)
+
+            _IODataSubclass.cls = MyData
+        kw = {f.name.lstrip("_"): getattr(o, f.name) for f in __import__("attrs").fields(IOData)}
+        try:
+            o = _IODataSubclass.cls(source="user", **kw)
+        except Exception:  # noqa: BLE001 - (over-determined combinations: keep the plain object)
+            pass
+    return o
 
 
 def _call(w, objs, disk, tracker_box):
@@ -384,7 +433,10 @@ def run_once(w, faults, budget=None):
 
         func = getattr(FORMAT_MODULES[w["fmt"]], w["op"])
         for j, o in enumerate(objs):
-            oc = copy.deepcopy(o)
+            try:
+                oc = copy.deepcopy(o)
+            except TypeError:
+                break  # (an object that cannot be copied: only used by the variant runs, which do not need the list)
             miss = [a for a in declared_required(func) if getattr(oc, a) is None]
             if miss:
                 missing.append((j, miss))
@@ -647,8 +699,10 @@ def env_variant(w, kind):
         v["env"] = {"missing_dir": "job1"}
         v["filename"] = "job1/out/" + w["filename"]
         v["target_pre"] = None
-    else:
+    elif kind == "cwd_gone":
         v["env"] = {"cwd_gone": True}
+    else:
+        v["env"] = {"variant": kind}  # the same data held by an object that is unusual but legal
     return v
 
 
@@ -680,6 +734,19 @@ def judge_env(v, rec, base):
             out.append(_v("wrong_exception", f"working directory removed: {et} ({exc}) instead of {bet or 'success'}", v, f"env/cwd_gone/{et}"))
         elif exc is None and rec["bytes"] != base["bytes"]:
             out.append(_v("bytes_differ", "working directory removed: other bytes written than in the ordinary environment", v, "env/cwd_gone"))
+    var = env.get("variant")
+    if var in ("uncopyable_extra", "defaultdict_extra"):
+        # the same content in another container / next to data the writers never look at: same outcome
+        if et != bet:
+            out.append(_v("wrong_exception", f"object variant {var}: {et} ({exc}) instead of {bet or 'success'}", v, f"env/{var}/{et}"))
+        elif rec["bytes"] != base["bytes"]:
+            out.append(_v("bytes_differ", f"object variant {var}: other bytes in the target than with a plain object ({et or 'success'})", v, f"env/{var}"))
+    elif var:
+        # (a conversion of such an object may be refused; what must hold is the error contract)
+        if exc is not None and et not in PREFLIGHT and et != "CallerFault" and not (isinstance(exc, OSError) and rec["plan"].fired):
+            out.append(_v("wrong_exception", f"object variant {var}: {et} escaped: {exc}", v, f"env/{var}/{et}"))
+        if et in ("PrepareDumpError", "FileFormatError") and v["op"] != "dump_many" and (rec["open_events"] or rec["bytes"] != (None if v.get("target_pre") is None else v["target_pre"].encode())):
+            out.append(_v("touched_before_error", f"object variant {var}: {et} but the target was opened/changed", v, f"env/{var}"))
     if rec["handles_open"]:
         out.append(_v("handle_leak", f"{rec['handles_open']} handle(s) still open ({et})", v, "env"))
     return out
@@ -691,6 +758,7 @@ def execute(trace):
         w0.pop("env")
         if trace["env"].get("missing_dir"):
             w0["filename"] = trace["filename"].split("/")[-1]
+            w0["target_pre"] = trace.get("target_pre")
         base = run_once(w0, [])
         return judge_env(trace, run_once(trace, [], max(20 * base["steps"], 2_000_000)), base)
     base = None
@@ -795,7 +863,10 @@ def run_task(task):
     # the working directory removed under the process
     erng = common.rng_for(task["seed"], ID, task["run"], "env")
     if w.get("iter_kind") != "gen_reentrant" and not isinstance(base["exc"], (StepBudgetExceeded, WallBudgetExceeded)):
-        for kind, p_ in (("missing_dir", 0.3), ("cwd_gone", 0.2)):
+        for kind, p_ in (("missing_dir", 0.3), ("cwd_gone", 0.2), ("uncopyable_extra", 0.12), ("defaultdict_extra", 0.15),
+                         ("counts_before_mo", 0.12), ("subclass", 0.1)):
+            if kind in ("uncopyable_extra", "defaultdict_extra", "counts_before_mo", "subclass") and (w["op"] == "write_input" or not w.get("objs")):
+                continue
             if erng.random() < p_:
                 v = env_variant(w, kind)
                 rec = run_once(v, [], max(20 * base["steps"], 2_000_000))
